@@ -4,6 +4,7 @@ import (
 	"bytes"
 	"fmt"
 	"sync"
+	"sync/atomic"
 	"time"
 
 	"github.com/cuteLittleDevil/go-jt808/service"
@@ -18,6 +19,8 @@ import (
 // writer is slowed by delay injection; the recorder keeps the *Message it was handed and a snapshot taken at
 // callback time. Oracles: snapshot == state after later traffic and after the connection closed; every reply
 // is computed from its own request; a later platform command is addressed with the terminal's own phone.
+
+var c09Splits atomic.Int64
 
 type c09Req struct {
 	id     uint16
@@ -61,24 +64,56 @@ func c09Conn(srv *svc.Server, cid int, seed uint64, nframes int) (viol [][2]stri
 				_ = j
 			}
 		}
-		return c09Req{id, uint16(0x100 + i), b}
+		return c09Req{id, uint16(0x100 + 3*i), b}
 	}
 	var reqs []c09Req
 	for i := 0; i < nframes; i++ {
 		reqs = append(reqs, mk(i))
 	}
 	first := reqs[0].serial
-	// writer: one frame per write, small gaps; some frames as 3 equal sub-packages
+	// writer: one frame per write, small gaps; every other 0x0801 goes as 3 sub-packages (default configuration: the
+	// parts are filtered, the reassembled message is delivered once, built on the LAST-arrived part), in order 1,2,3 or
+	// 1,3,2, one write or three; the writer then waits for that transfer's reply (it may trail later messages of a shared read)
+	split := func(i int) bool { return i > 0 && reqs[i].id == 0x0801 && i%2 == 0 }
+	acked := make(chan int, len(reqs))
+	wr := core.NewRand(seed, "c09w", uint64(cid))
 	go func() {
 		for i, q := range reqs {
+			if split(i) {
+				a, b2 := l/3, 2*l/3
+				parts := [][]byte{q.body[:a], q.body[a:b2], q.body[b2:]}
+				order := []int{1, 2, 3}
+				if wr.Bool() {
+					order = []int{1, 3, 2}
+				}
+				var fs [][]byte
+				for _, k := range order {
+					fs = append(fs, t.SubFrame(q.id, q.serial+uint16(k-1), 3, uint16(k), parts[k-1]))
+				}
+				if wr.Bool() {
+					fs = [][]byte{bytes.Join(fs, nil)}
+				}
+				for _, f := range fs {
+					if t.Write(f) != nil {
+						return
+					}
+				}
+				for j := range acked {
+					if j == i {
+						break
+					}
+				}
+				continue
+			}
 			if t.Write(t.Frame(q.id, q.serial, q.body)) != nil {
 				return
 			}
 			if i%4 != 0 {
-				time.Sleep(time.Duration(r.Intn(250)) * time.Microsecond)
+				time.Sleep(time.Duration(wr.Intn(250)) * time.Microsecond)
 			}
 		}
 	}()
+	defer close(acked)
 	for i, q := range reqs {
 		rx, ok, to := t.Next(60 * time.Second)
 		if to {
@@ -90,6 +125,10 @@ func c09Conn(srv *svc.Server, cid int, seed uint64, nframes int) (viol [][2]stri
 		}
 		exp := ref.ExpectedReply(q.id, q.serial, q.body, v2019, t.Phone)
 		checked++
+		if split(i) {
+			c09Splits.Add(1)
+			acked <- i
+		}
 		switch {
 		case rx.F == nil || exp == nil:
 			bad("reply|undecodable or unexpected reply", fmt.Sprintf("conn %d req %d", cid, i))
@@ -191,12 +230,14 @@ func c09Suite(c *core.Collector, seed uint64, batch int, conns, nframes int) {
 }
 
 func c09Socket(c *core.Collector, x *Ctx) {
-	c.Rule = "socket: per connection 'nframes' escape-free frames of identical length and different content (unique tokens; 0x0200/0x0704/0x0801/0x0102), one per write with sub-millisecond gaps, writer slowed by seeded delay injection; " +
+	c.Rule = "socket: per connection 'nframes' escape-free frames of identical length and different content (unique tokens; 0x0200/0x0704/0x0801/0x0102), one per write with sub-millisecond gaps, every other 0x0801 as a 3-part sub-packaged transfer completed by part 2 or 3, writer slowed by seeded delay injection; " +
 		"every reply checked against its own request, a later platform command checked for the terminal's phone, every *Message kept by the read callback compared with its snapshot after the connection closed. " +
 		"evaluation = one reply or one re-checked message; distinct = connection histories"
 	seed := c.Seed*1000 + uint64(x.Batch) + 300000
 	svc.YieldFromEnv(seed)
 	c09Suite(c, c.Seed, x.Batch, c.N(8, 24), c.N(300, 2500))
+	c.Count("socket_reassembled_transfers_completed_by_a_later_packet", c09Splits.Load())
+	c.Floor("socket_reassembled_transfers_completed_by_a_later_packet", 50)
 	d, tot := svc.SitesHit()
 	c.Count("yield_sites_hit", int64(d))
 	c.Count("yield_calls", int64(tot))
